@@ -936,7 +936,9 @@ def check_summaries(e):
       for c in gcols:
         v = st.columns[c][i]
         co = srccols[c]
-        if isinstance(co, (colmod.ChoiceListColumn, colmod.ReferenceListColumn)):
+        if isinstance(v, objtypes.RaisedException):
+          ok = False                       # error cells in a group-by column: not specified, not judged
+        elif isinstance(co, (colmod.ChoiceListColumn, colmod.ReferenceListColumn)):
           if v is None or (isinstance(v, (list, tuple)) and len(v) == 0):
             parts.append(["" if isinstance(co, colmod.ChoiceListColumn) else 0])
           elif isinstance(v, (list, tuple)):
@@ -969,6 +971,8 @@ def check_summaries(e):
                                                  and isinstance(k, (int, float)) and not isinstance(k, bool) and k == k and abs(k) < 1e15) else k)
                   for k, c in zip(key, gcols))
       key = tuple(_h(k) for k in key)
+      if any(isinstance(k, tuple) and k and k[0] == "E" for k in key):
+        continue                           # rows keyed by an error value: not judged (see above)
       try:
         if key in got:
           return "%s has two rows with key %s" % (tname, key)
